@@ -16,7 +16,12 @@
 package main
 
 import (
+	"crypto/sha256"
+	"flag"
 	"fmt"
+	"os"
+	"os/exec"
+	"path/filepath"
 	"runtime"
 	"sort"
 	"strings"
@@ -319,6 +324,17 @@ func (o *cop) String() string {
 	return fmt.Sprintf("g%d [%d,%d] close", o.g, o.inv, o.ret)
 }
 
+// static describes the call from its immutable fields only (safe while the call is running).
+func (o *cop) static() string {
+	switch o.kind {
+	case 'w':
+		return fmt.Sprintf("g%d write(%s, block=%v)", o.g, ids(o.es), o.block)
+	case 'r':
+		return fmt.Sprintf("g%d read(len=%d, block=%v)", o.g, o.ln, o.block)
+	}
+	return fmt.Sprintf("g%d close", o.g)
+}
+
 type history struct {
 	cap  int
 	pre  []int
@@ -488,9 +504,9 @@ func runHistory(r *vlib.Rand, slowConfirm bool) (*history, string, string) {
 			}
 			switch {
 			case o.kind == 'r' && (re > 0 || cl || o.ln == 0 || !o.block):
-				return "lost-wakeup-read", fmt.Sprintf("%s does not return although readable=%d closed=%v", o, re, cl)
+				return "lost-wakeup-read", fmt.Sprintf("%s does not return although readable=%d closed=%v", o.static(), re, cl)
 			case o.kind == 'w' && (wr > 0 || cl || len(o.es) == 0 || !o.block):
-				return "lost-wakeup-write", fmt.Sprintf("%s does not return although writable=%d closed=%v", o, wr, cl)
+				return "lost-wakeup-write", fmt.Sprintf("%s does not return although writable=%d closed=%v", o.static(), wr, cl)
 			case o.kind == 'c':
 				return "close-hangs", "Close does not return"
 			}
@@ -616,9 +632,94 @@ func linearise(h *history) (order []*cop, inconclusive bool) {
 	return nil, budget < 0
 }
 
+var raceChild = flag.Bool("race-child", false, "internal: run only the concurrent histories (binary built with -race)")
+
+// raceRun (thorough tier): builds this engine with the race detector and runs the concurrent
+// workloads under it. A data race reported inside private/ringbuf is a violation.
+func raceRun(e *vlib.Env) {
+	vdir, repo := os.Getenv("VERIF_DIR"), os.Getenv("VERIF_REPO")
+	if vdir == "" {
+		e.Extra["race_run"] = "skipped: VERIF_DIR not set"
+		return
+	}
+	outAbs, aerr := filepath.Abs(e.Out)
+	if aerr != nil {
+		e.Extra["race_run"] = "skipped: " + aerr.Error()
+		return
+	}
+	bin := filepath.Join(outAbs, "vh_ring_race")
+	args := []string{"build", "-race", "-tags", "verif", "-o", bin}
+	if repo != "" && repo != "/repo" {
+		tag := fmt.Sprintf("%x", sha256.Sum256([]byte(repo)))[:8]
+		args = append(args, "-modfile", filepath.Join(vdir, ".work", "gomod_"+tag+".mod"))
+	}
+	args = append(args, "./cmd/ring")
+	env := []string{}
+	for _, kv := range os.Environ() {
+		if strings.HasPrefix(kv, "GOSUMDB=") || strings.HasPrefix(kv, "GOTOOLCHAIN=") || strings.HasPrefix(kv, "GOFLAGS=") ||
+			strings.HasPrefix(kv, "GOPROXY=") {
+			continue
+		}
+		env = append(env, kv)
+	}
+	env = append(env, "GOFLAGS=-mod=mod", "GOPROXY=off")
+	b := exec.Command("go", args...)
+	b.Dir = filepath.Join(vdir, "harness")
+	b.Env = env
+	if out, err := b.CombinedOutput(); err != nil {
+		t := string(out)
+		if len(t) > 600 {
+			t = t[len(t)-600:]
+		}
+		e.Extra["race_run"] = "race build not available: " + t
+		return
+	}
+	sub := filepath.Join(outAbs, "race")
+	c := exec.Command(bin, "-prop", e.Prop, "-tier", e.Tier, "-seed", fmt.Sprint(e.Seed), "-out", sub, "-race-child")
+	c.Env = append(env, "GORACE=halt_on_error=0 exitcode=0")
+	out, err := c.CombinedOutput()
+	txt := string(out)
+	switch {
+	case strings.Contains(txt, "WARNING: DATA RACE") && strings.Contains(txt, "private/ringbuf"):
+		i := strings.Index(txt, "WARNING: DATA RACE")
+		rep := txt[i:]
+		if len(rep) > 3000 {
+			rep = rep[:3000]
+		}
+		e.Violate("C48/data-race", "the race detector reports a data race inside private/ringbuf under the concurrent workloads", map[string]any{"report": rep, "seed": e.Seed})
+		e.Extra["race_run"] = "DATA RACE"
+	case strings.Contains(txt, "WARNING: DATA RACE"):
+		e.Extra["race_run"] = "race report outside private/ringbuf (harness): ignored"
+		fmt.Fprintln(os.Stderr, txt)
+	case err != nil:
+		e.Extra["race_run"] = "race child failed: " + err.Error()
+		fmt.Fprintln(os.Stderr, txt)
+		os.Exit(3)
+	default:
+		e.Extra["race_run"] = "ok: concurrent workloads under -race, no report"
+	}
+}
+
 func main() {
 	e := vlib.Init()
 	r := vlib.NewRand(uint64(e.Seed))
+	if *raceChild {
+		n, bad := 4000, 0
+		for i := 0; i < n; i++ {
+			h, stuck, _ := runHistory(vlib.CaseRand(e.Seed, 2000000+i), false)
+			if stuck != "" {
+				bad++
+				continue
+			}
+			if order, inc := linearise(h); order == nil && !inc {
+				bad++
+			}
+		}
+		e.Extra["race_child_histories"] = n
+		e.Extra["race_child_bad"] = bad
+		e.Finish()
+		return
+	}
 	e.Rule = "A: sequential random op streams on real Rings (capacity 1..16, some 17..40, empty or pre-filled, batches 0..20, " +
 		"blocking where enabled, Close at a random point) compared with the model incl. index fields and slice contents; " +
 		"B: concurrent histories (2..8 goroutines x 1..6 calls, blocking/non-blocking, capacity 1..16, batches 0..20 or 0..2, " +
@@ -715,6 +816,9 @@ func main() {
 		if i == 0 {
 			e.Sample(h.dump())
 		}
+	}
+	if e.Thorough() {
+		raceRun(e)
 	}
 	e.Extra["histories"] = nh
 	e.Extra["search_budget_exceeded"] = inconcl
